@@ -263,7 +263,11 @@ def configs(tier, seed):
     Ds = list(range(2, 18)) + [32, 64] if tier == 'quick' else list(range(2, 41)) + [64, 127, 128, 255, 256, 512]
     for D in Ds:
         for real in (False, True):
-            cfgs.append(dict(kind='walk', name='walk D%d %s' % (D, 'real' if real else 'complex'), D=D, real=real))
+            # frame lengths the constructor can give for this DFT size: L = D, and D - 1 under padding to a power of two
+            # (frame length and DFT size then differ in parity)
+            Ls = [D] + ([D - 1] if D >= 4 and D & (D - 1) == 0 else [])
+            for L in Ls:
+                cfgs.append(dict(kind='walk', name='walk D%d%s %s' % (D, '' if L == D else ' L%d' % L, 'real' if real else 'complex'), D=D, L=L, real=real))
     grid = [(4, 2), (5, 2), (5, 3), (6, 3), (4, 4), (5, 5), (7, 3)] if tier == 'quick' else \
         [(2, 1), (2, 2), (3, 2), (3, 3), (4, 1), (4, 2), (4, 3), (4, 4), (5, 2), (5, 3), (5, 5), (6, 3), (6, 4), (7, 2), (7, 3), (7, 7), (8, 3), (9, 4)]
     # kaldi_shift is documented to matter for centered frames only: causal + kaldi_shift at two grid points
@@ -360,6 +364,7 @@ def run_frames(cfg):
 
 def run_walk(cfg):
     D, real = cfg['D'], cfg['real']
+    L = cfg.get('L', D)
     half_len = D // 2 + 1
     ns, fn = load_torch()
     viol = []
@@ -375,9 +380,9 @@ def run_walk(cfg):
             c.assume(start >= 0, start < D, tl >= 1, tl <= D)
         SegProd.segs = []
         filt = TFilt(SInt(tl), lambda j: j)
-        N = D + 2
+        N = L + 2
         try:
-            fn(tsig(N), [filt], [SInt(start)], D, D, False, None, D, False, True, False, False, real)
+            fn(tsig(N), [filt], [SInt(start)], L, L, False, None, D, False, True, False, False, real)
         except Exception as e:
             symex.guard(e)
             return ('exception', '%s: %s' % (type(e).__name__, e))
@@ -387,7 +392,7 @@ def run_walk(cfg):
         if res is None:
             continue
         ob += 1
-        base = dict(kind='walk', D=D, real=real)
+        base = dict(kind='walk', D=D, L=L, real=real)
         if res[0] == 'exception':
             m = ctx.model()
             viol.append(dict(base, what='exception', detail=res[1], start=m.eval(z3.Int('start'), True).as_long(), tl=m.eval(z3.Int('tl'), True).as_long()))
@@ -748,9 +753,12 @@ def replay(w):
                     if start + j == 0 or 2 * (start + j) == D:
                         taps[j] = 0.0
             bank = c02._synthetic_bank(D, start, taps, real)
-            c = STFTFrameComputer(bank, frame_length_ms=D + 0.5, frame_shift_ms=1.5, frame_style='causal', pad_to_nearest_power_of_two=False,
+            Lw = w.get('L', D)
+            c = STFTFrameComputer(bank, frame_length_ms=Lw + 0.5, frame_shift_ms=1.5, frame_style='causal', pad_to_nearest_power_of_two=(Lw != D),
                                   window_function='hamming', use_log=False, use_power=True)
-            xs = rng.randn(D + 3)
+            if c._dft_size != D or c.frame_length != Lw:
+                return {'reproduced': False, 'detail': 'no real computer with frame length %d and DFT size %d' % (Lw, D)}
+            xs = rng.randn(Lw + 3)
         elif k == 'frames':
             L, S, style, kaldi, N = w['L'], w['S'], w['style'], w['kaldi'], w['N']
             bank = c02._synthetic_bank(L, 1, np.array([0.7, 0.4])[:max(1, min(2, L // 2))], True)
